@@ -206,6 +206,11 @@ class Program:
             mod = ModuleInfo(modname, path, rel, src, tree)
             mod.is_pkg = is_pkg  # type: ignore[attr-defined]
             self.modules[modname] = mod
+        self.inline_stats: dict = {}
+        if not os.environ.get("SA_NO_INLINE"):
+            from .inline import normalise
+
+            self.inline_stats = normalise({m.name: m.tree for m in self.modules.values()})
         for mod in self.modules.values():
             self._index_module(mod)
 
